@@ -346,6 +346,12 @@ Alias ==
           /\ LET m == ObjectItem(h, p, h[r].key, cs) IN m # NULL => Releasable(h, m)
           /\ TakeF(<<"ReplaceItemInObjectAlias", p, r, cs, f>>, f, ReplaceItemInObject(h, roots, p, h[r].key, r, cs, f),
                    ReplaceItemInObject(h, roots, p, h[r].key, r, cs, 0))
+     \* cJSON_AddItemReferenceToObject(view, item->string, item): the reference gets its own copy of the name, whatever the argument aliases
+     \/ \E p \in Objs, item \in {j \in Live(h) : h[j].key # NoStr}, f \in Fails(2) :
+          /\ (F("ref") \/ F("refobj")) /\ HasFree(h, 1)
+          /\ p \notin SubAll(h, item, N)
+          /\ TakeF(<<"AddItemReferenceToObjectAlias", p, item, f>>, f, AddItemReferenceToObject(h, roots, p, h[item].key, item, f),
+                   AddItemReferenceToObject(h, roots, p, h[item].key, item, 0))
 
 \* the key argument points INTO the moved item's own key (a suffix of it): the property allows a key that aliases memory of the item
 Suffix(k, off) == SubSeq(k, off + 1, Len(k))
